@@ -127,6 +127,10 @@ def install(reg):
 
     E["asyncio.to_thread"] = VNative(to_thread, "asyncio.to_thread")
     reg.const_overrides["xandikos.web.to_thread"] = lambda it: VNative(to_thread, "to_thread")
+    from ..callables import VConstDict
+
+    # translation table of the ASCII case map: only ever passed to str.translate (modelled as UF)
+    reg.const_overrides["xandikos.collation._ASCII_CASEMAP"] = lambda it: it.new_container(VConstDict({}))
     E["errno.ENOSPC"] = VInt(28)
     E["stat.S_IFREG"] = VInt(0o100000)
     E["os.environ"] = lambda it: it.fresh_value("dict[str,str]", "os.environ")
